@@ -1,7 +1,7 @@
 """Property id -> check function."""
 import json
 
-from . import props_pool, props_router, props_plugins, props_relay, props_pause, props_shutdown, props_reload, props_prepared
+from . import props_pool, props_router, props_plugins, props_relay, props_pause, props_shutdown, props_reload, props_prepared, props_params
 
 CHECKS = {
     'C01': props_pool.check,
@@ -17,6 +17,7 @@ CHECKS = {
     'C17': props_shutdown.check_c17,
     'C14': props_reload.check_c14,
     'C08': props_prepared.check_c08,
+    'C12': props_params.check_c12,
 }
 
 
